@@ -12,6 +12,8 @@ def run(cmd, cwd, **kw):
     r = subprocess.run(cmd, shell=True, cwd=cwd, env=env, stdout=subprocess.PIPE, stderr=subprocess.STDOUT, text=True, **kw)
     return r.returncode, r.stdout
 meta = dict(id=sid, property=prop, ran=[])
+# 0. normalise the worktree: exactly the delivered patch on top of HEAD (agents sharing `git stash` can mix hunks)
+run('git checkout -- src && git apply MUTANT/patch.diff', wt)
 # 1. with the change: the existing suite passes (demo excluded), the demo fails
 rc, out = run('git status --short src | head -5; cargo test --offline --no-fail-fast 2>&1 | grep -E "^test result|^test .*FAILED|Running" ', wt)
 lines = out.splitlines()
@@ -27,11 +29,11 @@ for l in lines:
             suite_fail.append(cur + ' :: ' + l)
 meta['ran'].append(dict(cmd='cargo test --offline --no-fail-fast (change applied)', existing_tests_pass=not suite_fail, demo_fails=demo_fail_with))
 # 2. without the change: the demo passes
-run('git stash push -q -- src', wt)
+run('git checkout -- src', wt)
 rc2, out2 = run('cargo test --offline --test mutant_demo 2>&1 | grep -E "^test result"', wt)
-run('git stash pop -q', wt)
+run('git apply MUTANT/patch.diff', wt)
 demo_pass_without = 'ok.' in out2 and 'FAILED' not in out2
-meta['ran'].append(dict(cmd='git stash -- src; cargo test --offline --test mutant_demo', demo_passes=demo_pass_without))
+meta['ran'].append(dict(cmd='git checkout -- src; cargo test --offline --test mutant_demo', demo_passes=demo_pass_without))
 meta['confirmed'] = (not suite_fail) and demo_fail_with and demo_pass_without
 for f in ('patch.diff', 'mutant_demo.rs', 'README.md'):
     if os.path.exists(os.path.join(mdir, f)):
